@@ -818,8 +818,8 @@ def run_all(chk):
         return sum(len(case[5]) for case in codec_cases[pos][0])
     small = [pos for pos in keep if frame_size(pos) <= BIG]
     large = [pos for pos in keep if frame_size(pos) > BIG]
-    model_small = chk.coq_eval('codec', ['Model.Btpu'], [c_codec(*codec_cases[pos]) for pos in small], 'run_codec', chunk=40)
-    model_large = chk.coq_eval('codecbig', ['Model.Btpu'], [c_codec(*codec_cases[pos]) for pos in large], 'run_codec_big', chunk=2)
+    model_small = chk.coq_eval('codec', ['Model.Btpu'], [c_codec(*codec_cases[pos]) for pos in small], 'run_codec', chunk=max(20, len(small) // 10 + 1))
+    model_large = chk.coq_eval('codecbig', ['Model.Btpu'], [c_codec(*codec_cases[pos]) for pos in large], 'run_codec_big', chunk=max(2, len(large) // 12 + 1))
     encodings = []
     for (pos, mod) in list(zip(small, model_small)) + list(zip(large, model_large)):
         (msgs, pad) = codec_cases[pos]
@@ -875,7 +875,7 @@ def run_all(chk):
     lap('codec')
     # ---- (a') decode / re-encode of octet strings ------------------------------------------
     dec_cases = gen_decode_cases(chk, encodings)
-    model = chk.coq_eval('decode', ['Model.Btpu'], [cb(item) for item in dec_cases], 'run_decode', chunk=60)
+    model = chk.coq_eval('decode', ['Model.Btpu'], [cb(item) for item in dec_cases], 'run_decode', chunk=max(20, len(dec_cases) // 8 + 1))
     for (pos, (octets, mod)) in enumerate(zip(dec_cases, model)):
         dis = real_dissect(octets)
         chk.case(('decode', octets), nontrivial=bool(mod), sample=None)
@@ -915,8 +915,14 @@ def run_all(chk):
             chk.count('send_boundary', 'frame==mtu' if max(len(f) for f in frames) == mtu else 'frame<mtu')
     small = [pos for (pos, case) in enumerate(send_cases) if case[3] <= BIG]
     large = [pos for (pos, case) in enumerate(send_cases) if case[3] > BIG]
-    model_small = chk.coq_eval('send', ['Model.Btpu'], [c_send(*send_cases[pos]) for pos in small], 'run_send', chunk=20)
-    model_large = chk.coq_eval('sendbig', ['Model.Btpu'], [c_send(*send_cases[pos]) for pos in large], 'run_send_big', chunk=2)
+    model_small = chk.coq_eval('send', ['Model.Btpu'], [c_send(*send_cases[pos]) for pos in small], 'run_send', chunk=max(20, len(small) // 12 + 1))
+    large.sort(key=lambda pos: send_cases[pos][3])
+    mid = [pos for pos in large if send_cases[pos][3] <= 20000]
+    huge = [pos for pos in large if send_cases[pos][3] > 20000]
+    large = mid + huge
+    model_large = (chk.coq_eval('sendmid', ['Model.Btpu'], [c_send(*send_cases[pos]) for pos in mid], 'run_send_big',
+                                chunk=max(8, len(mid) // 12 + 1))
+                   + chk.coq_eval('sendbig', ['Model.Btpu'], [c_send(*send_cases[pos]) for pos in huge], 'run_send_big', chunk=1))
     for (pos, mod) in zip(small, model_small):
         got = [bytes(frm) for frm in mod]
         if got != send_impl[pos][0]:
@@ -948,7 +954,7 @@ def run_all(chk):
                      sample=samp(chk, 6, dict(suite='recv', mtu=mtu, length=length, order=order,
                                               signal_counts=[n for (n, _r) in obs['trace']])) if nseg == 4 and order[0] == 3 else None)
             chk.count('recv_segments', nseg if nseg <= 5 else '>5')
-    model = chk.coq_eval('xfer', ['Model.Btpu'], [c_xfer(*case) for case in xfer_cases], 'run_xfer', chunk=60)
+    model = chk.coq_eval('xfer', ['Model.Btpu'], [c_xfer(*case) for case in xfer_cases], 'run_xfer', chunk=max(20, len(xfer_cases) // 14 + 1))
     for (case, obs, mod) in zip(xfer_cases, xfer_impl, model):
         (m_counts, m_queue, m_signals, m_prog, m_timers, m_same) = mod
         real = ([n for (n, _r) in obs['trace']], [(len(d), digest(d)) for (_b, d) in obs['queue']],
@@ -956,7 +962,7 @@ def run_all(chk):
         modl = (list(m_counts), [tuple(ent) for ent in m_queue], [tuple(ent) for ent in m_signals], m_timers)
         if real != modl:
             run.note_mismatch('recv', 'mtu=%d len=%d order=%s: model %s vs real %s' % (case[0], case[3], case[4], modl, real))
-        elif obs['progress'] is not None and lst(obs['progress']) != lst(m_prog):
+        elif obs['progress'] is not None and lst(obs['progress']) != sorted(lst(m_prog)):
             run.note_mismatch('recv', 'order=%s: transfers in progress differ' % (case[4],))
         if bool(m_same) != (len(obs['queue']) == 1 and obs['queue'][0][1] == gdata(case[2], case[3])):
             run.note_mismatch('recv', 'order=%s: model and real disagree on "queued = bundle"' % (case[4],))
@@ -966,7 +972,7 @@ def run_all(chk):
     model = chk.coq_eval('recv', ['Model.Btpu'], [c_recv(arr) for arr in recv_cases], 'run_recv', chunk=40)
     for (arrival, mod) in zip(recv_cases, model):
         obs = real_recv(arrival)
-        (m_trace, m_prog, m_queue, m_signals, m_timers) = (mod[0],) + tuple(mod[1:]) if len(mod) == 5 else (mod[0],) + tuple(mod[1])
+        (m_trace, (m_prog, m_queue, m_signals, m_timers)) = mod
         chk.case(('recv', tuple(arrival)), nontrivial=len(arrival) > 1, sample=None)
         chk.count('recv_crafted_outcome', 'raised' if any(r for (_n, r) in obs['trace']) else ('queued' if obs['queue'] else 'nothing-queued'))
         real = ([(n, bool(r)) for (n, r) in obs['trace']], [(b, d) for (b, d) in obs['queue']],
@@ -975,7 +981,7 @@ def run_all(chk):
                 [tuple(s) for s in m_signals], m_timers)
         if real != modl:
             run.note_mismatch('recv', 'crafted %s: model %s vs real %s' % ([(c, f.hex()[:40]) for (c, f) in arrival], modl, real))
-        elif obs['progress'] is not None and lst(obs['progress']) != lst(m_prog):
+        elif obs['progress'] is not None and lst(obs['progress']) != sorted(lst(m_prog)):
             run.note_mismatch('recv', 'crafted %s: transfers in progress differ: model %s real %s' % (
                 [(c, f.hex()[:40]) for (c, f) in arrival], m_prog, obs['progress']))
     lap('recv')
